@@ -205,6 +205,9 @@ TWINS = [
     ('so3-rpy-stack-T', 'C09', 'pose3d.py', 'return np.array([base.tr2rpy(x, unit=unit, order=order) for x in self.A])', 'return np.array([base.tr2rpy(x, unit=unit, order=order) for x in self.A]).T', 'R8', 'SO3.rpy'),
     ('plane-p3-ismatrix', 'C19', 'geom3d.py', '        p = base.getmatrix(p, (3,3))', '        p = base.ismatrix(p, (3,3))', 'R20', 'Plane.P3'),
     ('plane-p3-ctor-arity', 'C19', 'geom3d.py', '        return cls.PN(v1, n)', '        return cls(n, v1)', 'R1a', 'Plane.P3'),
+    ('quat-ctor-no-shape', 'C07', 'quaternion.py', "                if not all(x.shape == (4,) for x in self.data):\n                    raise ValueError('quaternion value must be a 4-vector')\n", '', 'R5', 'Quaternion'),
+    ('uq-ctor-shape1', 'C15', 'quaternion.py', '            elif isinstance(s, np.ndarray) and s.shape == (4,) and norm:\n                # UnitQuaternion(v) v is a non-unit ndarray(4): normalise it, as for the list form\n                self.data = [base.unit(s)]\n\n            elif isinstance(s, np.ndarray) and s.ndim == 2 and s.shape[1] == 4:', '            elif isinstance(s, np.ndarray) and s.shape[1] == 4:', 'R21', 'UnitQuaternion.__init__'),
+    ('se2-ctor-len-first', 'C15', 'pose2d.py', '            elif argcheck.isscalar(x):\n                self.data = [tr.trot2(x, unit=unit)]\n            elif len(x) == 2:', '            elif len(x) == 2:', 'R21', 'SE2.__init__'),
 ]
 
 
